@@ -14,15 +14,67 @@ static USED: AtomicUsize = AtomicUsize::new(0);
 static SCOPE: AtomicBool = AtomicBool::new(false);
 static SCOPED_LIVE: AtomicIsize = AtomicIsize::new(0);
 
+/// layout bookkeeping: every live allocation is remembered with its layout, and a release with a different layout is
+/// counted (the system allocator ignores the size, so nothing else would notice)
+const T: usize = 1 << 14;
+static LAY_ON: AtomicBool = AtomicBool::new(false);
+static LPTR: [AtomicUsize; T] = [const { AtomicUsize::new(0) }; T];
+static LSIZE: [AtomicUsize; T] = [const { AtomicUsize::new(0) }; T];
+static LALIGN: [AtomicUsize; T] = [const { AtomicUsize::new(0) }; T];
+static LAY_BAD: AtomicUsize = AtomicUsize::new(0);
+static LAY_BAD_WANT: AtomicUsize = AtomicUsize::new(0);
+static LAY_BAD_GOT: AtomicUsize = AtomicUsize::new(0);
+
+fn lay_insert(p: usize, l: Layout) {
+    let mut i = (p >> 4) & (T - 1);
+    for _ in 0..64 {
+        let cur = LPTR[i].load(Ordering::Relaxed);
+        if cur == 0 || cur == p || cur == usize::MAX {
+            LPTR[i].store(p, Ordering::Relaxed);
+            LSIZE[i].store(l.size(), Ordering::Relaxed);
+            LALIGN[i].store(l.align(), Ordering::Relaxed);
+            return;
+        }
+        i = (i + 1) & (T - 1);
+    }
+}
+fn lay_remove(p: usize, l: Layout) {
+    let mut i = (p >> 4) & (T - 1);
+    for _ in 0..64 {
+        let cur = LPTR[i].load(Ordering::Relaxed);
+        if cur == p {
+            let (s, a) = (LSIZE[i].load(Ordering::Relaxed), LALIGN[i].load(Ordering::Relaxed));
+            if s != l.size() || a != l.align() {
+                LAY_BAD.fetch_add(1, Ordering::Relaxed);
+                LAY_BAD_WANT.store(s, Ordering::Relaxed);
+                LAY_BAD_GOT.store(l.size(), Ordering::Relaxed);
+            }
+            LPTR[i].store(usize::MAX, Ordering::Relaxed); // tombstone
+            return;
+        }
+        if cur == 0 {
+            return;
+        }
+        i = (i + 1) & (T - 1);
+    }
+}
+
 pub struct Tracking;
 unsafe impl GlobalAlloc for Tracking {
     unsafe fn alloc(&self, l: Layout) -> *mut u8 {
         if SCOPE.load(Ordering::Relaxed) {
             SCOPED_LIVE.fetch_add(l.size() as isize, Ordering::Relaxed);
         }
-        System.alloc(l)
+        let p = System.alloc(l);
+        if LAY_ON.load(Ordering::Relaxed) && !p.is_null() {
+            lay_insert(p as usize, l);
+        }
+        p
     }
     unsafe fn dealloc(&self, p: *mut u8, l: Layout) {
+        if LAY_ON.load(Ordering::Relaxed) {
+            lay_remove(p as usize, l);
+        }
         if SCOPE.load(Ordering::Relaxed) {
             SCOPED_LIVE.fetch_sub(l.size() as isize, Ordering::Relaxed);
         }
@@ -41,8 +93,27 @@ unsafe impl GlobalAlloc for Tracking {
         if SCOPE.load(Ordering::Relaxed) {
             SCOPED_LIVE.fetch_add(new_size as isize - l.size() as isize, Ordering::Relaxed);
         }
-        System.realloc(p, l, new_size)
+        let q = System.realloc(p, l, new_size);
+        if LAY_ON.load(Ordering::Relaxed) && !q.is_null() {
+            lay_remove(p as usize, l);
+            lay_insert(q as usize, Layout::from_size_align_unchecked(new_size, l.align()));
+        }
+        q
     }
+}
+
+/// start remembering layouts (allocations made before are unknown and never flagged)
+pub fn layout_check_start() {
+    for i in 0..T {
+        LPTR[i].store(0, Ordering::Relaxed);
+    }
+    LAY_BAD.store(0, Ordering::Relaxed);
+    LAY_ON.store(true, Ordering::Relaxed);
+}
+/// stop, and report (mismatches, size allocated, size given at release) of the last mismatch
+pub fn layout_check_stop() -> (usize, usize, usize) {
+    LAY_ON.store(false, Ordering::Relaxed);
+    (LAY_BAD.load(Ordering::Relaxed), LAY_BAD_WANT.load(Ordering::Relaxed), LAY_BAD_GOT.load(Ordering::Relaxed))
 }
 
 /// start a scenario: forget all watched pointers
